@@ -198,6 +198,13 @@ PROPS = {
             "termination and memory use of the whole read (hang / out of memory)",
             "observation outside the claimed set: produce_image_from_entry (anm/image_io.rs) panics on a texture whose data size does not "
             "match width*height*bpp (`assert_eq!` in ColorBytes::decode, `.expect(\"size error?!\")`); read_texture only warns",
+            "paths that CONTINUE after a warning inside read_instr (ecl_06: two warnings, ecl_10: padding-byte warning) and inside the ANM "
+            "read_header (`nonzero .. will be lost`): those harnesses use the cutting emitter, which ends a path at its first diagnostic; "
+            "that is exact where the diagnostic is the error return and leaves the code after a warning unchecked. read_quad and read_texture "
+            "use the real emitter and are checked to their return (changed after seeded change C16-std-quad-size-lenient)",
+            "observation outside the claimed set (genuine defect on the pinned tree, reproduced natively): read_olde_ecl on a TH07/08/095 file "
+            "whose timeline table starts with a null entry panics (`num_timelines -= 1` underflow, ecl_06.rs); a harness over the 68-byte "
+            "header was written and gave no verdict in 600 s (IndexMap/Box<dyn> state), so no check reports it",
         ],
         "bounds": [
             "per obligation the buffer length and the value of the size field are concrete (values below, at and above the header size, "
